@@ -464,6 +464,9 @@ func (x *Exec) termOf(st *State, v SVal) string {
 		if sl, ok := isSlice(v.GoT); ok {
 			es = sortOf(sl.Elem())
 		}
+		if st != nil && st.Named["es:"+v.Loc] != "" {
+			es = st.Named["es:"+v.Loc] // the element sort the header was unboxed with (a ~[]byte type parameter)
+		}
 		return x.D.app("boxslice!"+es, []string{arr, v.Off, v.Len}, []string{"(Array Int " + es + ")", "Int", "Int"}, "U")
 	case KClosure:
 		return q(x.D.constOf("closure!"+funcKey(v.Fn), "U"))
